@@ -7,7 +7,7 @@
    encoding/json ("cryptographically valid" is whatever the primitive answers). *)
 From Coq Require Import String NArith ZArith List Bool.
 From Coq.Strings Require Import Byte.
-From V Require Import Base.Bytes gen.Sig Sig.SigModel Sig.DerProofs Sig.EncProofs Sig.SigSpec Sig.SigProofs.
+From V Require Import Base.Bytes gen.Sig Sig.SigModel Sig.DerProofs Sig.EncProofs Sig.SigSpec Sig.SigProofs Sig.HistProofs.
 Import ListNotations.
 Local Open Scope N_scope.
 
@@ -163,6 +163,41 @@ Theorem create_declares_only_defined_codes : forall sign_ok pk h,
 Proof. exact create_signature_spec. Qed.
 Print Assumptions create_declares_only_defined_codes.
 
+(* verifier OBJECTS over histories (one ct.SignatureVerifier / ctutil.LogInfo / the package, called
+   again and again): every answer of every history is the stateless verdict under the key the
+   object was built with - no earlier success, failure or touch of the object's other state
+   (LogInfo.lastSTH) enters a later verdict *)
+Theorem object_history_stateless : forall digest rsa_ok ecdsa_ok dsa_ok json_ok st ops,
+  run_history digest rsa_ok ecdsa_ok dsa_ok json_ok st ops =
+  map (vcall digest rsa_ok ecdsa_ok dsa_ok json_ok (vs_key st)) ops.
+Proof. exact run_history_stateless. Qed.
+Print Assumptions object_history_stateless.
+
+(* so an SCT / STH that verified once on an object does not verify on it later - whatever was
+   called in between - with any signed field changed (same uniqueness hypothesis as
+   sct_field_change_rejected) *)
+Theorem history_sct_replay_with_changed_field_rejected :
+  forall digest rsa_ok ecdsa_ok dsa_ok json_ok st pre mid post s e s' e' m,
+  sct_signed_bytes s e = Some m ->
+  (forall m', accepts digest rsa_ok ecdsa_ok dsa_ok (vs_key st) m' (sct_sig s) -> m' = m) ->
+  sct_sig s' = sct_sig s ->
+  sct_signed_fields s' e' <> sct_signed_fields s e ->
+  nth_error (run_history digest rsa_ok ecdsa_ok dsa_ok json_ok st (pre ++ OpSct s e :: mid ++ OpSct s' e' :: post))
+            (length pre + 1 + length mid) <> Some (Some (Ok tt)).
+Proof. exact history_sct_replay_rejected. Qed.
+Print Assumptions history_sct_replay_with_changed_field_rejected.
+
+Theorem history_sth_replay_with_changed_field_rejected :
+  forall digest rsa_ok ecdsa_ok dsa_ok json_ok st pre mid post s s' m,
+  sth_signed_bytes s = Some m ->
+  (forall m', accepts digest rsa_ok ecdsa_ok dsa_ok (vs_key st) m' (sth_sig s) -> m' = m) ->
+  sth_sig s' = sth_sig s ->
+  sth_signed_fields s' <> sth_signed_fields s ->
+  nth_error (run_history digest rsa_ok ecdsa_ok dsa_ok json_ok st (pre ++ OpSth s :: mid ++ OpSth s' :: post))
+            (length pre + 1 + length mid) <> Some (Some (Ok tt)).
+Proof. exact history_sth_replay_rejected. Qed.
+Print Assumptions history_sth_replay_with_changed_field_rejected.
+
 (* ---------------- non-vacuity ---------------- *)
 Section Examples.
   (* toy oracles: the digest is the message itself; the (EC)DSA primitive accepts (r, s) = (5, 7)
@@ -231,4 +266,19 @@ Section Examples.
     new_from_signed_json (fun _ m => hex "6d") rsa ec ec (fun _ => true) (KECDSA 1 P256) (hex "7b7d") (hex "3006020105020108") = (Err, [JVerify]) /\
     new_from_signed_json (fun _ m => hex "6d") rsa ec ec (fun _ => true) (KDSA 1) (hex "7b7d") (hex "3006020105020107") = (Err, []).
   Proof. vm_compute. repeat split. Qed.
+
+  (* one object, one history: the SCT verifies against its leaf, then - same SCT, same signature -
+     not against another certificate, another entry type or with another timestamp; a touch of
+     lastSTH in between changes nothing; it verifies again when presented with its own leaf *)
+  Example object_history :
+    let s := {| sct_version := 0; sct_logid := hex "11"; sct_ts := 5; sct_ext := hex "ee"; sct_sig := sg 4 3 "3006020105020107" |} in
+    let s6 := {| sct_version := 0; sct_logid := hex "11"; sct_ts := 6; sct_ext := hex "ee"; sct_sig := sg 4 3 "3006020105020107" |} in
+    let own := hex "0000000000000000000500000000020102" ++ hex "0001ee" in
+    let d (_ : Z) (m : bytes) := if bytes_eqb m own then hex "6d" else hex "00" in
+    run_history d rsa ec ec (fun _ => true) {| vs_key := KECDSA 1 P256; vs_last := None |}
+      [OpSct s (TX509 (Some (hex "0102"))); OpSct s (TX509 (Some (hex "0103"))); OpTouch (Some (9, rep 32 x07));
+       OpSct s (TPrecert (Some (rep 32 x01, hex "0102"))); OpSct s6 (TX509 (Some (hex "0102")));
+       OpSct s (TX509 (Some (hex "0102"))); OpVerify own (sg 4 3 "3006020105020107"); OpVerify (hex "00") (sg 4 3 "3006020105020107")] =
+    [Some (Ok tt); Some Err; None; Some Err; Some Err; Some (Ok tt); Some (Ok tt); Some Err].
+  Proof. vm_compute. reflexivity. Qed.
 End Examples.
